@@ -32,12 +32,13 @@ type RuntimeRecorderConfig struct {
 // be non-nil.
 func NewRuntimeRecorder(c *RuntimeRecorderConfig) (r *RuntimeRecorder) {
 	return &RuntimeRecorder{
-		logger:   c.Logger,
-		mu:       &sync.Mutex{},
-		records:  Records{},
-		uploader: c.Uploader,
-		errColl:  c.ErrColl,
-		metrics:  c.Metrics,
+		logger:    c.Logger,
+		refreshMu: &sync.Mutex{},
+		mu:        &sync.Mutex{},
+		records:   Records{},
+		uploader:  c.Uploader,
+		errColl:   c.ErrColl,
+		metrics:   c.Metrics,
 	}
 }
 
@@ -45,6 +46,12 @@ func NewRuntimeRecorder(c *RuntimeRecorderConfig) (r *RuntimeRecorder) {
 // here are not persistent.
 type RuntimeRecorder struct {
 	logger *slog.Logger
+
+	// refreshMu serializes Refresh calls, which can come from the refresh
+	// worker, the debug API, and the shutdown.  Without it, a failed upload
+	// that overlaps with a newer one remerges its older records over the data
+	// of the more recent queries.
+	refreshMu *sync.Mutex
 
 	// mu protects records and syncTime.
 	mu *sync.Mutex
@@ -106,6 +113,9 @@ var _ agdservice.Refresher = (*RuntimeRecorder)(nil)
 func (r *RuntimeRecorder) Refresh(ctx context.Context) (err error) {
 	r.logger.DebugContext(ctx, "refresh started")
 	defer r.logger.DebugContext(ctx, "refresh finished")
+
+	r.refreshMu.Lock()
+	defer r.refreshMu.Unlock()
 
 	records := r.resetRecords(ctx)
 
